@@ -89,9 +89,7 @@ func (f *Do) Call(s *slip.Scope, args slip.List, depth int) (result slip.Object)
 					if tr.Tag == nil {
 						return tr.Result
 					}
-					if s.Block {
-						return tr
-					}
+					return tr
 				case *GoTo:
 					for i++; i < len(args); i++ {
 						if args[i] == tr.Tag {
